@@ -9,6 +9,10 @@ EXTRA.update({'C02_9': ['C01'], 'C02_10': ['C20', 'C16'], 'C03_9': ['C18'], 'C03
               'C19_10': ['C16'], 'C20_10': ['C16']})
 EXTRA.update({'C03_11': ['C16', 'C17'], 'C03_12': ['C14'], 'C05_11': ['C08'], 'C01_11': ['C07'], 'C07_11': ['C01'], 'C07_12': ['C10'],
               'C16_12': ['C17'], 'C11_11': ['C05'], 'C08_12': ['C05'], 'C13_11': ['C09'], 'C19_11': ['C13'], 'C12_11': ['C09'], 'C20_11': ['C17']})
+EXTRA.update({'C01_13': ['C05', 'C13'], 'C01_14': ['C08'], 'C05_13': ['C11'], 'C05_14': ['C01'], 'C06_13': ['C04', 'C20'], 'C04_14': ['C06'],
+              'C13_14': ['C05'], 'C14_13': ['C12', 'C13'], 'C15_14': ['C04'], 'C16_13': ['C07', 'C17'], 'C18_14': ['C16'], 'C19_13': ['C12'],
+              'C20_13': ['C17'], 'C20_14': ['C06'], 'C11_13': ['C05'], 'C09_13': ['C10'], 'C07_13': ['C10'], 'C02_14': ['C03'],
+              'C03_13': ['C02'], 'C03_14': ['C17'], 'C17_13': ['C20']})
 only = sys.argv[1:]
 for patch in sorted(glob.glob('/tmp/mut/C??_*.patch.diff')):
     mid = os.path.basename(patch)[:-len('.patch.diff')]
